@@ -31,12 +31,22 @@ func solverList() []solverSpec {
 // smtGround: the query with triggered quantifiers instantiated by the engine and
 // every quantified assumption dropped ("" when the query has no triggered quantifier).
 func (fv *FuncVer) smtGround(q *Query) string {
-	insts := instantiate(q.Assumptions, q.Goal, 3, 600)
+	// existentials in positive positions of the assumptions get named witnesses (Skolem
+	// functions of the enclosing universal variables): validity-preserving, and it lets the
+	// engine offer those witnesses to an existential goal
+	assumptions := make([]*Term, len(q.Assumptions))
+	for i, a := range q.Assumptions {
+		assumptions[i] = a
+		if hasExists(a) {
+			assumptions[i] = fv.skolemEx(a, nil, fmt.Sprintf("w%d", i))
+		}
+	}
+	insts := instantiate(assumptions, q.Goal, 3, 600)
 	if len(insts) == 0 {
 		return ""
 	}
 	var as []*Term
-	for _, a := range q.Assumptions {
+	for _, a := range assumptions {
 		if !hasQuant(a) {
 			as = append(as, a)
 		}
@@ -46,7 +56,149 @@ func (fv *FuncVer) smtGround(q *Query) string {
 			as = append(as, a)
 		}
 	}
-	return fv.smtText(&Query{Assumptions: as, Goal: q.Goal}, true)
+	goal := q.Goal
+	if hasExists(goal) {
+		// an existential goal is replaced by the disjunction of its instances at the candidate
+		// witnesses found among the ground terms (a stronger goal: proving it proves the original)
+		pool := groundSubterms(append(append([]*Term{}, as...), goal))
+		goal = witnessGoal(goal, pool)
+	}
+	return fv.smtText(&Query{Assumptions: as, Goal: goal}, true)
+}
+
+func hasExists(t *Term) bool {
+	if t == nil {
+		return false
+	}
+	if t.Q != nil {
+		if !t.Q.Forall {
+			return true
+		}
+		return hasExists(t.Q.Body)
+	}
+	for _, a := range t.Args {
+		if hasExists(a) {
+			return true
+		}
+	}
+	return false
+}
+
+// skolemEx replaces existential quantifiers in positive positions (conjuncts, consequents of
+// implications, bodies of universal quantifiers) by applications of fresh function symbols to
+// the universally bound variables in scope. Other positions are left alone.
+func (fv *FuncVer) skolemEx(t *Term, univ []*Term, tag string) *Term {
+	switch {
+	case t.Q != nil && t.Q.Forall:
+		nb := fv.skolemEx(t.Q.Body, append(append([]*Term{}, univ...), t.Q.Vars...), tag)
+		if nb == t.Q.Body {
+			return t
+		}
+		return &Term{Sort: SBool, Q: &Quant{Forall: true, Vars: t.Q.Vars, Body: nb, Pats: t.Q.Pats}}
+	case t.Q != nil && !t.Q.Forall:
+		bind := map[*Term]*Term{}
+		for i, v := range t.Q.Vars {
+			bind[v] = fv.ctx.Func(fmt.Sprintf("sk_%s_%s_%d_%d", tag, v.Op, len(univ), i), v.Sort, univ...)
+		}
+		return fv.skolemEx(substTerm(t.Q.Body, bind, map[*Term]*Term{}), univ, tag+"x")
+	case t.Op == "and":
+		args := make([]*Term, len(t.Args))
+		changed := false
+		for i, a := range t.Args {
+			args[i] = fv.skolemEx(a, univ, fmt.Sprintf("%s_%d", tag, i))
+			changed = changed || args[i] != a
+		}
+		if !changed {
+			return t
+		}
+		return And(args...)
+	case t.Op == "=>" && len(t.Args) == 2:
+		nb := fv.skolemEx(t.Args[1], univ, tag+"c")
+		if nb == t.Args[1] {
+			return t
+		}
+		return Implies(t.Args[0], nb)
+	}
+	return t
+}
+
+// witnessGoal instantiates the existential quantifiers in positive positions of a goal at
+// every ground term that can stand for the bound variable in one of the body's applications.
+func witnessGoal(g *Term, pool []*Term) *Term {
+	switch {
+	case g.Q != nil && !g.Q.Forall:
+		var pats []*Term
+		collectApps(g.Q.Body, g.Q.Vars, &pats)
+		seen := map[string]bool{}
+		var alts []*Term
+		for _, p := range pats {
+			for _, gt := range pool {
+				bind := map[*Term]*Term{}
+				if !matchTerm(p, gt, g.Q.Vars, bind) || len(bind) != len(g.Q.Vars) {
+					continue
+				}
+				inst := substTerm(g.Q.Body, bind, map[*Term]*Term{})
+				k := inst.String()
+				if seen[k] || len(alts) >= 24 {
+					continue
+				}
+				seen[k] = true
+				alts = append(alts, witnessGoal(inst, pool))
+			}
+		}
+		if len(alts) == 0 {
+			return g
+		}
+		return Or(alts...)
+	case g.Op == "and":
+		args := make([]*Term, len(g.Args))
+		for i, a := range g.Args {
+			args[i] = witnessGoal(a, pool)
+		}
+		return And(args...)
+	case g.Op == "=>" && len(g.Args) == 2:
+		return Implies(g.Args[0], witnessGoal(g.Args[1], pool))
+	}
+	return g
+}
+
+// collectApps gathers the applications (array reads, uninterpreted functions) in t that mention
+// all of vars and contain no quantifier; they serve as patterns for candidate witnesses.
+func collectApps(t *Term, vars []*Term, out *[]*Term) bool {
+	if t == nil || t.Q != nil {
+		return false
+	}
+	for _, a := range t.Args {
+		collectApps(a, vars, out)
+	}
+	if (t.Op == "select" || (t.Sym != nil && len(t.Args) > 0)) && mentionsAll(t, vars) && !hasQuant(t) {
+		*out = append(*out, t)
+	}
+	return true
+}
+
+func mentionsAll(t *Term, vars []*Term) bool {
+	for _, v := range vars {
+		if !mentions(t, v) {
+			return false
+		}
+	}
+	return true
+}
+
+func mentions(t, v *Term) bool {
+	if t == v {
+		return true
+	}
+	if t == nil || t.Q != nil {
+		return false
+	}
+	for _, a := range t.Args {
+		if mentions(a, v) {
+			return true
+		}
+	}
+	return false
 }
 
 func (fv *FuncVer) smtText(q *Query, wantModel bool) string {
